@@ -597,13 +597,14 @@ class Union(Structure, metaclass=UnionMetaType):
         object.__setattr__(self, "_sizes", sizes)
 
     def _proxify(self) -> None:
-        def _proxy_structure(value: Structure) -> None:
+        def _proxy_structure(value: Structure, attr: str | None = None) -> None:
             for field in value.__class__.__fields__:
                 if issubclass(field.type, Structure):
                     nested_value = getattr(value, field._name)
-                    proxy = UnionProxy(self, field._name, nested_value)
+                    # Nested structures rebuild the union through the top-level member they belong to
+                    proxy = UnionProxy(self, attr or field._name, nested_value)
                     object.__setattr__(value, field._name, proxy)
-                    _proxy_structure(nested_value)
+                    _proxy_structure(nested_value, attr or field._name)
 
         _proxy_structure(self)
 
